@@ -193,8 +193,7 @@ Store(a, arg, t2, s2, eff) ==
   /\ KeepDraft /\ KeepPathX /\ nops' = nops + 1 /\ narr' = narr + 1
   /\ obs' = [a |-> a, arg |-> arg, eff |-> eff,
              exp |-> [ret |-> "any", anyret |-> TRUE, nodes |-> Count(s2),
-                      all |-> IF Observe THEN AllOf(t2) ELSE <<>>, rel |-> IF Observe THEN RelOf(t2) ELSE <<>>,
-                      all2 |-> IF Observe THEN [i \in 1..Len(Uni) |-> SGet(s2, Uni[i])] ELSE <<>>]]
+                      all |-> IF Observe THEN AllOf(t2) ELSE <<>>, rel |-> IF Observe THEN RelOf(t2) ELSE <<>>]]
 
 (* documents are written before the program runs *)
 Drafting == nops = 0 /\ Routes \cap {"load", "nodeparse", "parsenode"} # {}
@@ -286,8 +285,7 @@ MsgGet(cfg, sep, split, ps) ==
                    exp |-> [ret |-> IF all THEN "values" ELSE "absent", anyret |-> FALSE,
                             vals |-> IF all THEN vals ELSE <<>>,
                             nodes |-> Count(st), all |-> IF Observe THEN AllOf(tree) ELSE <<>>,
-                            rel |-> IF Observe THEN RelOf(tree) ELSE <<>>,
-                            all2 |-> IF Observe THEN [i \in 1..Len(Uni) |-> SGet(st, Uni[i])] ELSE <<>>]]
+                            rel |-> IF Observe THEN RelOf(tree) ELSE <<>>]]
 
 (* mpt_node_parse (replace) / mpt_parse_node (merge) on the node of the base path *)
 LastOf(p) == p[Len(p)]
@@ -392,7 +390,7 @@ ArrivalStep ==
     /\ e.k = "del" => RemovedOnly(tree, e.ps, tree')
     /\ e.k \in {"replace", "merge"} => Parsed(tree, e.k, e.base, e.es, tree')
     /\ e.k = "get" => tree' = tree
-    /\ obs'.exp.all = obs'.exp.all2          \* both tiers answer every query of the universe alike
+    \* (that both tiers answer every query alike is the invariant Refines: AbsTree(st) = tree)
 ArrivalProp == [][ArrivalStep]_xvars
 \* single assignments / removals within the frame: the action property of the base specification
 SingleProp == [][obs'.a \in {"assign", "remove"} => MapStep]_xvars
